@@ -62,6 +62,27 @@ def utf8_text(max_bytes: int, *, min_bytes: int = 0, exclude: str = "") -> st.Se
     return base
 
 
+def long_text(max_bytes: int, *, exclude: str = "") -> st.SearchStrategy[str]:
+    """Text whose UTF-8 encoding is at or just below max_bytes (lengths Hypothesis' text() rarely reaches), half of the
+    time; any length otherwise."""
+    chars = [c for c in "xA7 -_\u00e9\u00fc\u0416\u20ac\u2460" if c not in exclude]
+
+    def build(t):
+        n, picks = t
+        out, size = [], 0
+        for k in picks:
+            c = chars[k % len(chars)]
+            b = len(c.encode("utf-8"))
+            if size + b > n:
+                break
+            out.append(c)
+            size += b
+        return "".join(out) + "x" * (n - size)
+
+    near = st.tuples(st.integers(max(1, max_bytes - 6), max_bytes), st.lists(st.integers(0, 50), min_size=max_bytes, max_size=max_bytes)).map(build)
+    return st.one_of(utf8_text(max_bytes, min_bytes=1, exclude=exclude), near)
+
+
 def at4_temp_float(raw: int) -> float:
     return (raw - 500) / 10.0
 
@@ -145,7 +166,7 @@ at4_timer_status_req = st.just(ts4.AcTimerStatusRequest())
 at4_timer_control = _at4_timer_states.map(lambda l: tc4.AcTimerControlMessage(ac_timer_status=l))
 
 at4_err_msg = st.builds(err4.AcErrorInformationMessage, ac_number=ac_no4,
-                        error_info=st.one_of(st.none(), utf8_text(255, min_bytes=1)))
+                        error_info=st.one_of(st.none(), long_text(255)))
 at4_err_req = st.builds(err4.AcErrorInformationRequest, ac_number=ac_no4)
 
 
@@ -180,7 +201,9 @@ at4_quick_timer = st.builds(qt4.QuickTimerMessage, ac_number=ac_no4, timer_type=
 
 def _versions(sep: str):
     one = utf8_text(100, exclude=sep)
-    return st.lists(one, min_size=1, max_size=2)
+    # the version text is length-prefixed by one byte: up to 255 bytes in total (incl. separators)
+    return st.one_of(st.lists(one, min_size=1, max_size=2), long_text(255, exclude=sep).map(lambda t: [t]),
+                     st.tuples(long_text(127, exclude=sep), long_text(127, exclude=sep)).map(list))
 
 
 at4_version_msg = st.builds(cv4.ConsoleVersionMessage, update_available=st.booleans(), versions=_versions("|"))
@@ -246,7 +269,7 @@ at5_timer_status_req = st.just(ts5.AcTimerStatusRequest())
 at5_timer_control = recs(_at5_timer_data, 0).map(lambda l: tc5.AcTimerControlMessage(ac_timer_status=l))
 
 at5_err_msg = st.builds(err5.AcErrorInformationMessage, ac_number=idx5,
-                        error_info=st.one_of(st.none(), utf8_text(255, min_bytes=1)))
+                        error_info=st.one_of(st.none(), long_text(255)))
 at5_err_req = st.builds(err5.AcErrorInformationRequest, ac_number=idx5)
 
 _at5_ability = st.builds(
@@ -257,7 +280,8 @@ _at5_ability = st.builds(
 at5_ability_msg = recs(_at5_ability, 1, 8).map(ab5.AcAbilityMessage)
 at5_ability_req = st.one_of(st.just("ALL"), idx5).map(ab5.AcAbilityRequest)
 
-at5_names_msg = st.dictionaries(idx5, utf8_text(40), min_size=1, max_size=16).map(zn5.ZoneNamesMessage)
+at5_names_msg = st.one_of(st.dictionaries(idx5, utf8_text(40), min_size=1, max_size=16),
+                          st.dictionaries(idx5, long_text(24), min_size=10, max_size=16)).map(zn5.ZoneNamesMessage)
 at5_names_req = st.one_of(st.just("ALL"), idx5).map(zn5.ZoneNamesRequest)
 
 at5_quick_timer = st.builds(qt5.QuickTimerMessage, ac_number=idx5, timer_type=st.sampled_from(list(qt5.TimerType)),
